@@ -238,6 +238,24 @@ func TestVf_C20(t *testing.T) {
 			run.Sample(map[string]interface{}{"case": cs, "address": cs.addr()})
 		}
 		vfAddrCheck(run, cs)
+		if c%4 == 0 {
+			// the same host in a sibling form right afterwards, then the first form again: nothing may be remembered
+			// from one call to the next
+			sib := cs
+			if sib.Port == 0 {
+				sib.Port = 1 + r.Intn(65535)
+				if sib.Kind == "ipv6" {
+					sib.Bracketed = true
+				}
+			} else if sib.Scheme == "" {
+				sib.Port = 0
+			}
+			run.CaseQuiet()
+			vfAddrCheck(run, sib)
+			run.CaseQuiet()
+			vfAddrCheck(run, cs)
+			run.Count("sibling_addresses_in_sequence", 1)
+		}
 	}
 	// exhaustive port sweep on three host shapes
 	for _, hc := range []vfAddrCase{{Host: "example.org", Kind: "dns"}, {Host: "192.0.2.7", Kind: "ipv4"}, {Host: "2001:db8::1", Kind: "ipv6", Bracketed: true}} {
